@@ -665,5 +665,7 @@ impl Arena {
 //@@end
 }
 
+//@@include wrappers_unsync.inc
+
 } // verus!
 fn main() {}
